@@ -118,7 +118,9 @@ def run_config(cfg, res):
   # every other shard runs with the name caches the example configuration suggests (small, so that entries get evicted)
   ncache = 40 if cfg['name'].rsplit('/', 1)[-1] in ('1', '3', '5', '7') else 0
   ns = boot.boot('carbon-relay', {'RELAY_METHOD': cfg['router'], 'ROUTER_HASH_TYPE': cfg['hash_type'],
-                                  'DESTINATIONS': '127.0.0.1:2004:a', 'CACHE_METRIC_NAMES_MAX': ncache},
+                                  'DESTINATIONS': '127.0.0.1:2004:a', 'CACHE_METRIC_NAMES_MAX': ncache,
+                                  # several connections per host:port (DESTINATION_POOL_REPLICAS) on some shards
+                                  'DESTINATION_POOL_REPLICAS': cfg['name'].rsplit('/', 1)[-1] in ('2', '3', '6')},
                  files={'aggregation-rules.conf': AGG_RULES,
                         'relay-rules.conf': '[default]\ndefault = true\ndestinations = 127.0.0.1:2004:a\n'})
   settings = ns.settings
